@@ -254,7 +254,8 @@ theorem acc_astep (c : Cfg) (s : State) (t : Nat) : Acc s (astep c s t).1 (astep
       cases is with
       | nil =>
           simp only
-          have h0 : Acc s (setPc (distribute c s) t (Pc.hRun (c.prog t))) [] := Acc.of_eq rfl rfl (fun _ => by simp) (by simp)
+          have h0 : Acc s (setPc (distribute c s) t (Pc.hRun (c.prog t))) [] :=
+            Acc.of_eq (by unfold distribute; split <;> rfl) (by unfold distribute; split <;> rfl) (fun _ => by simp) (by simp)
           simpa using h0.trans (acc_runProg t _ _)
       | cons i is =>
           simp only
@@ -262,6 +263,9 @@ theorem acc_astep (c : Cfg) (s : State) (t : Nat) : Acc s (astep c s t).1 (astep
           · exact Acc.of_eq rfl rfl (fun _ => by simp [isAwObs]) (by simp [isFreedEv])
           · cases i with
             | xchgInit => exact Acc.of_eq rfl rfl (fun _ => by simp [cstep, isAwObs]) (by simp [cstep, isFreedEv])
+            | giveInit =>
+                exact Acc.of_eq (by simp only [cstep, setPc]; split <;> rfl) (by simp only [cstep, setPc]; split <;> rfl)
+                  (fun _ => by simp [cstep, isAwObs]) (by simp [cstep, isFreedEv])
             | xchgTmp => exact Acc.of_eq rfl rfl (fun _ => by simp [cstep, isAwObs]) (by simp [cstep, isFreedEv])
             | loadTmp => exact Acc.of_eq rfl rfl (fun _ => by simp [cstep, isAwObs]) (by simp [cstep, isFreedEv])
             | loadPending =>
@@ -469,6 +473,7 @@ theorem obsGood_astep (hf : Fixed c) (h : Inv c s) (hen : enabled s t = true) : 
           apply NoObs.good
           cases i with
           | xchgInit => intro e hm; simp [cstep] at hm; rcases hm with h1 | h1 <;> (subst h1; rfl)
+          | giveInit => intro e hm; simp [cstep] at hm; rcases hm with h1 | h1 <;> (subst h1; rfl)
           | xchgTmp => exact noObs_single _ rfl
           | loadTmp => exact noObs_single _ rfl
           | loadPending => simp only [cstep]; split <;> exact noObs_single _ rfl
